@@ -27,3 +27,51 @@ def declare(reg):
     )
     reg.properties.setdefault("C19", {}).setdefault("bounded", []).append(
         {"name": "read-loop-vs-reference-tokenizer", "module": "harness.frontend", "func": "ReadLoop"})
+    reg.properties.setdefault("C19", {}).setdefault("bounded", []).append(
+        {"name": "response-relay-unmodified", "module": "harness.frontend", "func": "Relay"})
+
+    # ---- msgs_to_client (C19 d): what the user process sends reaches the IMAP client unmodified and in order -------------------
+    reg.classdef("StreamReader", {"g_chunks": "list[str]", "g_pos": "int"})
+    reg.classdef("IMAPClientFront", {"g_out": "list[str]"})
+    reg.classes["IMAPSubprocessInterface"].fields["reader"] = __import__("pyvc.sorts", fromlist=["parse_ty"]).parse_ty("ref:StreamReader")
+    reg.classes["IMAPSubprocessInterface"].fields["imap_client"] = __import__("pyvc.sorts", fromlist=["parse_ty"]).parse_ty("ref:IMAPClientFront")
+    for e in ("IncompleteReadError", "LimitOverrunError"):
+        reg.exc_parents.setdefault(e, "Exception")
+    reg.contract("<asyncio>", "StreamReader.read", params={"self": "ref:StreamReader", "n": "int"}, ret="str",
+                 ensures={"next-chunk": "ite(old(self.g_pos) < len(self.g_chunks), result == self.g_chunks[old(self.g_pos)] and len(result) > 0 and self.g_pos == old(self.g_pos) + 1, "
+                                        "result == '' and self.g_pos == old(self.g_pos))"},
+                 raises={"OSError": None, "IncompleteReadError": None, "ConnectionResetError": None},
+                 exc_ensures={"nothing-consumed": "self.g_pos == old(self.g_pos)"},
+                 modifies=["self.g_pos"], trusted=True, yields=True,
+                 note="A-ASYNC: read(n) returns the next non-empty piece of the byte stream (ghost g_chunks: the pieces in arrival order), b'' at end of stream")
+    reg.contract(S, "IMAPClientFront.push", params={"self": "ref:IMAPClientFront", "data": "list[str]"},
+                 ensures={"appended": "appended(self.g_out, old(self.g_out), data)", "len": "len(self.g_out) == len(old(self.g_out)) + len(data)"},
+                 raises={"OSError": None, "ConnectionResetError": None}, exc_ensures={"nothing-written": "same(self.g_out, old(self.g_out))"},
+                 modifies=["self.g_out"], trusted=True, yields=True, ghost={"varargs": "data"},
+                 note="A-ASYNC: IMAPClient.push writes the data, in order, to the IMAP client's socket (ghost g_out)")
+    reg.contract(S, "IMAPClientFront.close", params={"self": "ref:IMAPClientFront"}, trusted=True, yields=True, note="closes the connection; writes nothing")
+    reg.contract(S, "IMAPSubprocessInterface.close", params={"self": "ref:IMAPSubprocessInterface"}, trusted=True, yields=True, note="closes the connection to the user process; writes nothing to the client")
+    OUT = "self.imap_client.g_out"
+    N0 = f"len(old({OUT}))"
+    P0 = "old(self.reader.g_pos)"
+    reg.contract(
+        S, "IMAPSubprocessInterface.msgs_to_client", params={"self": "ref:IMAPSubprocessInterface"},
+        ensures={
+            # everything written to the client is, piece by piece and in order, what the user process sent
+            "relayed-unmodified-in-order": f"forall(lambda i: implies({N0} <= i and i < len({OUT}), {OUT}[i] == self.reader.g_chunks[{P0} + (i - {N0})]))",
+            "earlier-output-kept": f"len({OUT}) >= {N0} and forall(lambda i: implies(0 <= i and i < {N0}, {OUT}[i] == old({OUT})[i]))",
+            # nothing is skipped: at most the one piece whose write failed is missing at the end
+            "nothing-skipped": f"len({OUT}) - {N0} == self.reader.g_pos - {P0} or len({OUT}) - {N0} == self.reader.g_pos - {P0} - 1",
+        },
+        requires={"pos-in-range": "0 <= self.reader.g_pos and self.reader.g_pos <= len(self.reader.g_chunks)"},
+        loops={0: {"invariant": {
+            "relayed-so-far": f"len({OUT}) - {N0} == self.reader.g_pos - {P0} and {P0} <= self.reader.g_pos and self.reader.g_pos <= len(self.reader.g_chunks) and "
+                              f"forall(lambda i: implies({N0} <= i and i < len({OUT}), {OUT}[i] == self.reader.g_chunks[{P0} + (i - {N0})])) and "
+                              f"len({OUT}) >= {N0} and forall(lambda i: implies(0 <= i and i < {N0}, {OUT}[i] == old({OUT})[i]))",
+            "same-streams": "self.reader == old(self.reader) and self.imap_client == old(self.imap_client)",
+        }}},
+        modifies=["StreamReader.g_pos", "IMAPClientFront.g_out"],
+        is_async=True,
+        props=["C19"],
+        ghost={"harness": "harness.frontend:Relay"},
+    )
